@@ -34,7 +34,10 @@ type addrEntry struct {
 type addrTab struct {
 	ents []addrEntry
 	n    int
+	gcs  int
 }
+
+const maxAddrGCs = 48 // forced collections per world
 
 var addrNext uintptr
 
@@ -80,16 +83,9 @@ func (w *World) simAddr(real uintptr, p unsafe.Pointer) uintptr {
 		// globals / read-only data never die and are never reused: their order of first sight names them
 		return w.addrAdd(real, weak.Pointer[byte]{}, 0)
 	}
-	// new object: collect now, so that "dead" means unreachable at this very point of the run
-	runtime.GC()
-	w.Stat[StAddrGC]++
-	dead := 0
-	for i := 0; i < t.n; i++ {
-		e := &t.ents[i]
-		if !e.gone && e.isDead() {
-			dead++
-		}
-	}
+	// new object: first the seeded decision whether it may take over a dead object's number at all; only then
+	// collect (so that "dead" means unreachable at this very point of the run) and look for one. Collections
+	// are bounded per world: beyond the bound every new object gets a fresh number.
 	pct := w.cfg.AddrReusePct
 	if pct == 0 {
 		pct = defaultAddrReusePct
@@ -98,20 +94,32 @@ func (w *World) simAddr(real uintptr, p unsafe.Pointer) uintptr {
 		pct = 0
 	}
 	reuse := uintptr(0)
-	if dead > 0 && w.Choose(100, "addr.reuse") < pct {
-		k := w.Choose(dead, "addr.which")
+	if t.n > 0 && w.Choose(100, "addr.reuse") < pct && t.gcs < maxAddrGCs {
+		t.gcs++
+		runtime.GC()
+		w.Stat[StAddrGC]++
+		dead := 0
 		for i := 0; i < t.n; i++ {
 			e := &t.ents[i]
 			if !e.gone && e.isDead() {
-				if k == 0 {
-					reuse = e.sim
-					e.gone = true
-					break
-				}
-				k--
+				dead++
 			}
 		}
-		w.Stat[StAddrReuse]++
+		if dead > 0 {
+			k := w.Choose(dead, "addr.which")
+			for i := 0; i < t.n; i++ {
+				e := &t.ents[i]
+				if !e.gone && e.isDead() {
+					if k == 0 {
+						reuse = e.sim
+						e.gone = true
+						break
+					}
+					k--
+				}
+			}
+			w.Stat[StAddrReuse]++
+		}
 	}
 	return w.addrAdd(real, weak.Make((*byte)(p)), reuse)
 }
